@@ -150,11 +150,37 @@ def run_case(case):
                 r1 = f(pf.CellVariable(m, full.copy()))
                 keep = [np.array(x_, copy=True) for x_ in gen.facevar_arrays(r1, g.nd)]
                 r2 = f(pf.CellVariable(m, other.copy()))
+                r3 = f(pf.CellVariable(m, full.copy()))         # the first field once more, after the other one
             for k in range(g.nd):
                 a1, a2 = gen.facevar_arrays(r1, g.nd)[k], gen.facevar_arrays(r2, g.nd)[k]
                 if not np.array_equal(np.asarray(a1), keep[k], equal_nan=True) or (np.size(a1) and np.shares_memory(a1, a2)):
                     bad.append((name + '/result-overwritten', '%s: the face values returned for one field changed (or share storage) when %s was evaluated for another field on the same grid (axis %d)' % (name, name, k)))
+                if not np.array_equal(np.asarray(gen.facevar_arrays(r3, g.nd)[k]), keep[k], equal_nan=True):
+                    bad.append((name + '/depends-on-earlier-call', '%s of a field differs from what it was before %s was evaluated for another field on the same grid (axis %d): the face values depend on more than the two adjacent cells' % (name, name, k)))
             cov['results_alive_probes'] = cov.get('results_alive_probes', 0) + 1
+        # the velocity object of the upwind mean is refreshed IN PLACE between two evaluations (u.xvalue[...] = ..., u.xvalue *= -1:
+        # flow reversal, a new iterate of a velocity field): the donor cells are those of the velocity as it is now
+        with np.errstate(all='ignore'):
+            uv_ = gen.facevar(pf, m, [np.array(a_, dtype=float, copy=True) for a_ in u_arrs])
+            ph_ = pf.CellVariable(m, full.copy())
+            pf.upwindMean(ph_, uv_)
+            howu = str(rng.choice(['imul', 'slice', 'flip-some']))
+            newu = []
+            for a_ in gen.facevar_arrays(uv_, g.nd):
+                if howu == 'imul':
+                    a_ *= -1.0
+                elif howu == 'slice':
+                    a_[...] = -np.asarray(a_) + 0.0
+                else:
+                    flip = rng.random(a_.shape) < 0.5
+                    a_[flip] = -a_[flip]
+                newu.append(np.array(a_, copy=True))
+            got = gen.facevar_arrays(pf.upwindMean(ph_, uv_), g.nd)
+            ref = gen.facevar_arrays(pf.upwindMean(pf.CellVariable(m, full.copy()), gen.facevar(pf, m, newu)), g.nd)
+        for k in range(g.nd):
+            if not np.array_equal(np.asarray(got[k]), np.asarray(ref[k]), equal_nan=True):
+                bad.append(('upwindMean/stale-velocity', 'upwindMean after the velocity object was edited in place (%s) is not the donor-cell value for the velocity it holds now (axis %d)' % (howu, k)))
+        cov['upwind_velocity_edited_in_place:' + howu] = cov.get('upwind_velocity_edited_in_place:' + howu, 0) + 1
         # one variable, evaluated, given a new field, evaluated again (a coefficient k(phi) re-averaged in every sweep of a loop):
         # the second result is the mean of the field the variable holds now, i.e. bit for bit what a fresh variable holding the
         # same numbers gives - whichever supported way the new field came in
